@@ -12,6 +12,7 @@ import (
 	"vharness/c09"
 	"vharness/c10"
 	"vharness/c11"
+	"vharness/c12"
 	"vharness/c13"
 	"vharness/c17"
 	"vharness/c18"
@@ -42,6 +43,7 @@ func init() {
 	add("c09", c09.Harnesses)
 	add("c10", c10.Harnesses)
 	add("c11", c11.Harnesses)
+	add("c12", c12.Harnesses)
 	add("c13", c13.Harnesses)
 	add("c17", c17.Harnesses)
 	add("c18", c18.Harnesses)
